@@ -85,7 +85,7 @@ def _ledger(lines, sel=1):
         cur = {}
         for mc in d["mc"]:
             for rc in mc.get("rc", []):
-                if rc["id"] == sel and "trd" in rc:
+                if rc["id"] == sel and not rc.get("hc") and "trd" in rc:
                     for p, s in rc["trd"]:
                         cur[p] = s
         cap = {}
@@ -106,7 +106,16 @@ def _eligible(side, limit, price):
 
 
 def _run_world(mode, q, orders, seq, isolation, only_strategy=None, variant=None):
-    spec = simx.MarketSpec(book0=book_for(mode, q))
+    if variant == "other-line-first":
+        # the same selection id is also offered on another handicap line, listed BEFORE the line the orders are on,
+        # with nothing queued there: the queue ahead is the one of the order's own runner
+        bk = book_for(mode, q)
+        book0 = {(1, -0.5): {"atb": [[1.5, 10]], "atl": [[2.5, 10]], "trd": [[2.1, 40]]}, (1, 0): bk[1], (2, 0): bk[2]}
+        spec = simx.MarketSpec(book0=book0, sels=((1, -0.5), (1, 0), (2, 0)), market_type="ASIAN_HANDICAP")
+        # the trading happens on the orders' own line
+        seq = [([e[0], "1:0"] + list(e[2:])) if e[0] in ("T", "TA", "B") and e[1] == 1 else e for e in seq]
+    else:
+        spec = simx.MarketSpec(book0=book_for(mode, q))
     ticks = [[200, e] for e in seq] + [[200, ["Q"]]]
     if variant == "queue-shrinks-on-arrival" and mode != "MIXED" and q:
         # the update on which the orders are acknowledged also shows a smaller queue at their prices: the queue
@@ -273,7 +282,7 @@ def run(tier):
     # set-up variants: two clients with a user middleware registered before the second client; queue shrinking on
     # the very update that acknowledges the orders
     vseqs = [s for s in seqs if len(s) <= 2]
-    for variant in ("two-clients", "queue-shrinks-on-arrival", "suspended-reopened"):
+    for variant in ("two-clients", "queue-shrinks-on-arrival", "suspended-reopened", "other-line-first"):
         for mode in ("BACK", "LAY"):
             for q in (2, 6):
                 for orders in order_configs(mode)[:14]:
